@@ -209,6 +209,10 @@ class Resolver:
                 out = set()
                 for n in walk_no_nested(f.node):
                     if isinstance(n, ast.Assign) and any(isinstance(t, ast.Name) and t.id == e.id for t in n.targets):
+                        if isinstance(n.value, ast.Call) and (f.short, "=" + (chain(n.value.func) or "?")) in self.hints:
+                            # declared dynamic dispatch: a local bound from that call
+                            out |= set(self.hints[(f.short, "=" + chain(n.value.func))])
+                            continue
                         out |= self.infer(f, n.value, depth + 1)
                     elif isinstance(n, ast.AnnAssign) and isinstance(n.target, ast.Name) and n.target.id == e.id:
                         t = self._ann_txt(f, n.annotation)
